@@ -108,10 +108,12 @@ fn split_first_meta_var(
     return None;
   }
   let name = src[skipped..skipped + i].to_string();
-  let var = if is_multi {
-    MetaVarExtract::Multiple(name)
-  } else if transform.contains(&name) {
+  // a transformed variable is a transformed variable however many sigils spell it:
+  // `$$$B` for a transformation B used to be read as an (unbound) multi capture and vanished
+  let var = if transform.contains(&name) {
     MetaVarExtract::Transformed(name)
+  } else if is_multi {
+    MetaVarExtract::Multiple(name)
   } else {
     MetaVarExtract::Single(name)
   };
